@@ -29,13 +29,13 @@ import (
 	"k8s.io/client-go/tools/cache"
 	"tkestack.io/galaxy/pkg/api/galaxy/constant"
 	"tkestack.io/galaxy/pkg/api/k8s/schedulerapi"
+	ipamapi "tkestack.io/galaxy/pkg/ipam/api"
 	"tkestack.io/galaxy/pkg/ipam/apis/galaxy/v1alpha1"
 	fakeGalaxyCli "tkestack.io/galaxy/pkg/ipam/client/clientset/versioned/fake"
 	galaxylister "tkestack.io/galaxy/pkg/ipam/client/listers/galaxy/v1alpha1"
 	"tkestack.io/galaxy/pkg/ipam/cloudprovider/rpc"
-	"tkestack.io/galaxy/pkg/ipam/floatingip"
-	ipamapi "tkestack.io/galaxy/pkg/ipam/api"
 	ipamcontext "tkestack.io/galaxy/pkg/ipam/context"
+	"tkestack.io/galaxy/pkg/ipam/floatingip"
 	"tkestack.io/galaxy/pkg/ipam/schedulerplugin"
 	"tkestack.io/galaxy/pkg/ipam/schedulerplugin/util"
 	"tkestack.io/galaxy/pkg/utils/nets"
@@ -58,6 +58,38 @@ func (p *pausingIPAM) ByPrefix(prefix string) ([]*floatingip.FloatingIPInfo, err
 		f()
 	}
 	return r, err
+}
+
+// gateIPAM stops the FIRST allocating call (AllocateInSubnet / AllocateInSubnetWithKey) made through it at its entry - before
+// crdIpam takes its own lock - until the harness lets it go; every other call passes through
+type gateIPAM struct {
+	floatingip.IPAM
+	mu     sync.Mutex
+	armed  bool
+	paused chan struct{}
+	resume chan struct{}
+}
+
+func (g *gateIPAM) gate() {
+	g.mu.Lock()
+	if !g.armed {
+		g.mu.Unlock()
+		return
+	}
+	g.armed = false
+	g.mu.Unlock()
+	close(g.paused)
+	<-g.resume
+}
+
+func (g *gateIPAM) AllocateInSubnet(key string, subnet *net.IPNet, attr floatingip.Attr) (net.IP, error) {
+	g.gate()
+	return g.IPAM.AllocateInSubnet(key, subnet, attr)
+}
+
+func (g *gateIPAM) AllocateInSubnetWithKey(oldK, newK, subnet string, attr floatingip.Attr) error {
+	g.gate()
+	return g.IPAM.AllocateInSubnetWithKey(oldK, newK, subnet, attr)
 }
 
 // ---- recording cloud provider with one scripted clean failure per section
@@ -103,29 +135,32 @@ type podSpec struct {
 	Ranges                         [][]string
 	Phase                          int
 	Node                           string
+	// PreIps: the pod is created with an arguments annotation that already holds common.ipinfos (a manifest copied from a
+	// running floating-IP pod)
+	PreIps []string
 }
 
 type plugWorld struct {
-	kube     *kubefake.Clientset
-	gcli     *fakeGalaxyCli.Clientset
-	hgcli    *hookedCli // gcli behind the stand-in for the API server's cached read path (yieldcli.go)
+	kube  *kubefake.Clientset
+	gcli  *fakeGalaxyCli.Clientset
+	hgcli *hookedCli // gcli behind the stand-in for the API server's cached read path (yieldcli.go)
 	// the last Running object the lister showed for a pod name before it was replaced, updated or removed: what a pod-IP
 	// sync pass that listed the pods earlier (or a pod event handler that runs late) still holds in its hands
-	grave map[string]*corev1.Pod
-	slog     *storeLog
-	plugin   *schedulerplugin.FloatingIPPlugin
-	cloud    *fakeCloud
-	provider bool
-	podIdx   cache.Indexer
-	stsIdx   cache.Indexer
-	dpIdx    cache.Indexer
-	poolIdx  cache.Indexer
-	queue    []*corev1.Pod
-	confText string
-	bindInj  bool
-	bindLog  []string
-	pending  map[string]pendingEv
-	approved map[string][]string // ns/name -> nodes the last filter of that pod returned
+	grave     map[string]*corev1.Pod
+	slog      *storeLog
+	plugin    *schedulerplugin.FloatingIPPlugin
+	cloud     *fakeCloud
+	provider  bool
+	podIdx    cache.Indexer
+	stsIdx    cache.Indexer
+	dpIdx     cache.Indexer
+	poolIdx   cache.Indexer
+	queue     []*corev1.Pod
+	confText  string
+	bindInj   bool
+	bindLog   []string
+	pending   map[string]pendingEv
+	approved  map[string][]string             // ns/name -> nodes the last filter of that pod returned
 	checklist *schedulerplugin.VerifChecklist // snapshot of the resync pass in progress
 }
 
@@ -143,8 +178,19 @@ func buildPod(s podSpec) *corev1.Pod {
 	} else if s.Policy == 2 {
 		ann[constant.ReleasePolicyAnnotation] = constant.Never
 	}
-	if len(s.Ranges) > 0 {
-		b, _ := json.Marshal(map[string]interface{}{"request_ip_range": s.Ranges})
+	if len(s.Ranges) > 0 || len(s.PreIps) > 0 {
+		args := map[string]interface{}{}
+		if len(s.Ranges) > 0 {
+			args["request_ip_range"] = s.Ranges
+		}
+		if len(s.PreIps) > 0 {
+			var infos []map[string]interface{}
+			for _, ip := range s.PreIps {
+				infos = append(infos, map[string]interface{}{"ip": ip + "/24", "vlan": 0, "gateway": "10.100.0.1"})
+			}
+			args["common"] = map[string]interface{}{"ipinfos": infos}
+		}
+		b, _ := json.Marshal(args)
 		ann[constant.ExtendedCNIArgsAnnotation] = string(b)
 	}
 	p := &corev1.Pod{
@@ -403,6 +449,19 @@ func (w *plugWorld) runOp(c map[string]interface{}) map[string]interface{} {
 			p.Status.Phase = phaseOf(int(Num(c, "phase")))
 			_, err = w.kube.CoreV1().Pods(Str(c, "ns")).Update(context.TODO(), p, metav1.UpdateOptions{})
 		}
+	case "pod_terminating":
+		// graceful deletion has begun: the object stays, with a deletion timestamp, until the kubelet is done
+		p, err := w.kube.CoreV1().Pods(Str(c, "ns")).Get(context.TODO(), Str(c, "name"), metav1.GetOptions{})
+		if err == nil {
+			p = p.DeepCopy()
+			now := metav1.Now()
+			grace := int64(30)
+			p.DeletionTimestamp, p.DeletionGracePeriodSeconds = &now, &grace
+			_, err = w.kube.CoreV1().Pods(Str(c, "ns")).Update(context.TODO(), p, metav1.UpdateOptions{})
+		}
+		if err != nil {
+			o["res"] = "skipped"
+		}
 	case "informer":
 		// the informer catches up for one pod: the handlers galaxy-ipam registers are called as client-go would
 		ns, name := Str(c, "ns"), Str(c, "name")
@@ -631,6 +690,73 @@ func (w *plugWorld) runOp(c map[string]interface{}) map[string]interface{} {
 			o["res"] = "notenough"
 		} else if code != 200 {
 			o["res"] = "err"
+		}
+	case "filter_race":
+		// two Filter requests of the scheduler for pods that share a sized pool (or an app's reserve): the first is stopped
+		// between having counted the pool's IPs and allocating; the second arrives meanwhile.  Counting and allocating are one
+		// critical section under the pool mutex, so the second can only complete after the first.
+		g := &gateIPAM{armed: true, paused: make(chan struct{}), resume: make(chan struct{})}
+		w.plugin.VerifWrapIpam(func(i floatingip.IPAM) floatingip.IPAM { g.IPAM = i; return g })
+		defer w.plugin.VerifWrapIpam(func(floatingip.IPAM) floatingip.IPAM { return g.IPAM })
+		names, _ := c["pods"].([]interface{})
+		type fres struct {
+			nodes []string
+			err   error
+		}
+		run := func(name string, done chan fres) {
+			pod, gerr := w.kube.CoreV1().Pods(Str(c, "ns")).Get(context.TODO(), name, metav1.GetOptions{})
+			if gerr != nil {
+				done <- fres{nil, gerr}
+				return
+			}
+			nodes, _, err := w.plugin.Filter(pod, w.nodeList(c["nodes"].([]interface{})))
+			var ns []string
+			for _, n := range nodes {
+				ns = append(ns, n.Name)
+			}
+			done <- fres{ns, err}
+		}
+		doneA, doneB := make(chan fres, 1), make(chan fres, 1)
+		n0, _ := names[0].(string)
+		n1, _ := names[1].(string)
+		go run(n0, doneA)
+		var ra, rb fres
+		aDone := false
+		select {
+		case <-g.paused:
+		case ra = <-doneA:
+			aDone = true // the first request never allocated
+		case <-time.After(2 * time.Second):
+		}
+		go run(n1, doneB)
+		during, gotB := false, false
+		select {
+		case rb = <-doneB:
+			during, gotB = !aDone, true
+		case <-time.After(300 * time.Millisecond):
+		}
+		g.mu.Lock()
+		g.armed = false
+		g.mu.Unlock()
+		select {
+		case <-g.paused:
+			close(g.resume)
+		default:
+			close(g.resume)
+		}
+		if !aDone {
+			ra = <-doneA
+		}
+		if !gotB {
+			rb = <-doneB
+		}
+		o["second_during_first"] = during
+		o["nodes_a"], o["nodes_b"] = ra.nodes, rb.nodes
+		if ra.err != nil {
+			o["err_a"] = ra.err.Error()
+		}
+		if rb.err != nil {
+			o["err_b"] = rb.err.Error()
 		}
 	case "sync_pod":
 		if b, _ := c["stale"].(bool); b {
